@@ -85,6 +85,15 @@ pub static mut UNDEF: u8 = 0;
 /// the assembler refuses the program
 pub static mut PRE_ERR: bool = false;
 pub static mut LEN: usize = 0;
+/// result kind / interrupt number of the FIRST executed instruction when the harness fixes them (255 = not fixed)
+pub static mut FIX_KIND: u8 = 255;
+pub static mut FIX_INT: u8 = 0;
+pub fn fix_first(kind: u8, int: u8) {
+    unsafe {
+        FIX_KIND = kind;
+        FIX_INT = int;
+    }
+}
 pub fn set_shape(n: usize, d: usize, start_kind: u8, undef: u8, len: usize, pre_err: bool) {
     unsafe {
         PRE_ERR = pre_err;
@@ -109,6 +118,7 @@ pub fn reset(sc: Scenario) {
         EP_CALLS = 0;
         DATA_CALLS = 0;
         LAST = None;
+        FIX_KIND = 255;
         VM_TOUCHED = false;
         EXITED = false;
     }
@@ -274,12 +284,15 @@ impl Interpreter {
         vm.arch.flag = sc.flag[k];
         vm.arch.ax = sc.ax[k];
         unsafe { LAST = Some(regs(vm)) };
-        match sc.kind[k] {
+        let fixed = k == 0 && unsafe { FIX_KIND } != 255;
+        let kind = if fixed { unsafe { FIX_KIND } } else { sc.kind[k] };
+        let intno = if fixed { unsafe { FIX_INT } } else { sc.int[k] };
+        match kind {
             0 => Ok(State::HALT),
             1 => Ok(State::PRINT),
             2 => Ok(State::JMP(sc.tgt[k])),
             3 => Ok(State::NEXT),
-            4 => Ok(State::INT(sc.int[k])),
+            4 => Ok(State::INT(intno)),
             5 => Ok(State::REPEAT),
             _ => Err(StubErr),
         }
